@@ -67,7 +67,8 @@ theorem C16c_maintenance_exclusive {c : Cfg} {s : State} (h : Reach c s) {t1 t2 
 
 /-- no maintenance lock is leaked: a held lock has its holder inside the pass -/
 theorem C16c_no_leaked_maintenance_lock {c : Cfg} {s : State} (h : Reach c s) (hq : Quiescent c s)
-    (hfresh : ∀ t, c.nThreads ≤ t → s.pc t = .idle) (sh : Nat) : s.mlock sh = none := by
+    (sh : Nat) : s.mlock sh = none := by
+  have hfresh := (invA_reach h).fresh
   cases hm : s.mlock sh with
   | none => rfl
   | some t =>
